@@ -40,6 +40,11 @@ FLAG_NAMES = ["FITERRSMALL", "FITERR", "FIXED2PSF", "FIXEDCIRCULAR",
 
 
 MUTANTS = [
+    ("row bound of the refit box clamped with the column count",
+     "AegeanTools/source_finder.py",
+     "                xmax = max(xmax, min(shape[0], x + xwidth // 2 + 1))",
+     "                xmax = max(xmax, min(shape[1], x + xwidth // 2 + 1))",
+     "C03-R17"),
     ("a SourceFinder method memoised", "AegeanTools/source_finder.py",
      "    def _load_aux_image(self, image, auxfile):",
      "    @lru_cache(maxsize=None)\n    def _load_aux_image(self, image, auxfile):",
@@ -144,6 +149,16 @@ def run(ctx):
     r7(ctx, prog)
     r8(ctx, prog)
     r9(ctx, prog)
+    ctx.rule("C03-R17", "the fitting box of a priorized island is cut with "
+             "row bounds made of row quantities and column bounds made of "
+             "column quantities (a row bound clamped with the number of "
+             "columns gives an empty box on a tall image: nanmax of nothing "
+             "raises and the run aborts instead of flagging)")
+    unitrules.apply(ctx, "C03-R17",
+                    {"source_finder.SourceFinder._refit_islands"},
+                    kinds={"sink"},
+                    report_rules={"idx-slice-axis", "idx-crossed"},
+                    what="cut-outs of _refit_islands", floor=None)
     r11(ctx, prog)
     r14_flags_reach(ctx, prog)
     from .c01 import isolation_rule
